@@ -17,6 +17,53 @@ pub enum Seed {
     Written(Program),
     Encoded { scene: Program, layout: Layout },
     Bundled(String),
+    /// hand-built, spec-conforming file: one cloud with a 1-bit record followed by `consts` constant records
+    /// (minimum = maximum) and ONE data packet holding `points` points
+    ConstHeavy { consts: u16, points: u32 },
+}
+
+/// See `Seed::ConstHeavy`.
+pub fn const_heavy_file(consts: usize, points: usize) -> Vec<u8> {
+    let streams = consts + 1;
+    let data_len = (points + 7) / 8;
+    let mut packet: Vec<u8> = vec![1, 0, 0, 0];
+    packet.extend_from_slice(&(streams as u16).to_le_bytes());
+    packet.extend_from_slice(&(data_len as u16).to_le_bytes());
+    for _ in 0..consts {
+        packet.extend_from_slice(&0u16.to_le_bytes());
+    }
+    packet.extend((0..data_len).map(|i| (i * 37 % 251) as u8));
+    while packet.len() % 4 != 0 {
+        packet.push(0);
+    }
+    let plen = (packet.len() - 1) as u16;
+    packet[2..4].copy_from_slice(&plen.to_le_bytes());
+    let section_log = 48u64;
+    let packet_log = section_log + 32;
+    let xml_log = packet_log + packet.len() as u64;
+    let mut xml = String::from("<?xml version=\"1.0\" encoding=\"UTF-8\"?>\n<e57Root type=\"Structure\" xmlns=\"http://www.astm.org/COMMIT/E57/2010-e57-v1.0\" xmlns:k=\"urn:verif:const\">\n<formatName type=\"String\"><![CDATA[ASTM E57 3D Imaging Data File]]></formatName>\n<guid type=\"String\"><![CDATA[{const-heavy}]]></guid>\n<versionMajor type=\"Integer\">1</versionMajor>\n<versionMinor type=\"Integer\">0</versionMinor>\n<data3D type=\"Vector\" allowHeterogeneousChildren=\"1\">\n<vectorChild type=\"Structure\">\n<guid type=\"String\"><![CDATA[{cloud}]]></guid>\n");
+    xml.push_str(&format!("<points type=\"CompressedVector\" fileOffset=\"{}\" recordCount=\"{points}\">\n<prototype type=\"Structure\">\n<rowIndex type=\"Integer\" minimum=\"0\" maximum=\"1\"/>\n", pages::log_to_phys(section_log)));
+    for i in 0..consts {
+        xml.push_str(&format!("<k:c{i} type=\"Integer\" minimum=\"7\" maximum=\"7\"/>\n"));
+    }
+    xml.push_str("</prototype>\n<codecs type=\"Vector\" allowHeterogeneousChildren=\"1\"/>\n</points>\n</vectorChild>\n</data3D>\n<images2D type=\"Vector\" allowHeterogeneousChildren=\"1\"/>\n</e57Root>\n");
+    let total_log = xml_log + xml.len() as u64;
+    let pages_n = (total_log + 1019) / 1020;
+    let mut log = vec![0u8; 48];
+    log[0..8].copy_from_slice(b"ASTM-E57");
+    log[8..12].copy_from_slice(&1u32.to_le_bytes());
+    log[16..24].copy_from_slice(&(pages_n * 1024).to_le_bytes());
+    log[24..32].copy_from_slice(&pages::log_to_phys(xml_log).to_le_bytes());
+    log[32..40].copy_from_slice(&(xml.len() as u64).to_le_bytes());
+    log[40..48].copy_from_slice(&1024u64.to_le_bytes());
+    let mut sec = vec![0u8; 32];
+    sec[0] = 1;
+    sec[8..16].copy_from_slice(&(32 + packet.len() as u64).to_le_bytes());
+    sec[16..24].copy_from_slice(&pages::log_to_phys(packet_log).to_le_bytes());
+    log.extend_from_slice(&sec);
+    log.extend_from_slice(&packet);
+    log.extend_from_slice(xml.as_bytes());
+    pages::page(&log)
 }
 
 #[derive(Clone, Debug, Serialize, Deserialize)]
@@ -87,6 +134,7 @@ pub fn seed_bytes(s: &Seed) -> Result<Vec<u8>, String> {
         }
         Seed::Encoded { scene, layout } => encode(&build_scene(scene), layout).map(|e| e.bytes),
         Seed::Bundled(n) => crate::preflight::bundled(n),
+        Seed::ConstHeavy { consts, points } => Ok(const_heavy_file(*consts as usize, (*points as usize).min(440_000))),
     }
 }
 
@@ -602,6 +650,10 @@ fn apply_mut(img: &mut Img, m: &Mut) {
 /// Apply a mutation script; the result need not be a valid file.
 pub fn mutate(sc: &Script) -> Result<Vec<u8>, String> {
     let seed = seed_bytes(&sc.seed)?;
+    if matches!(sc.seed, Seed::ConstHeavy { .. }) {
+        // used as it is (decoding it with the reference decoder would itself need gigabytes)
+        return Ok(seed);
+    }
     let d = e57ref::decode::decode(&seed).map_err(|e| format!("seed file is not decodable: {e}"))?;
     let log = pages::unpage(&seed)?;
     let xml_log = pages::phys_to_log(d.header.xml_offset).unwrap_or(0) as usize;
